@@ -62,6 +62,15 @@ theorem aac_adif_info_decodes_partial (h : Adif) (ok : h.OK) (hyp : h.bitstreamT
     parse h.build = .ok h.expected :=
   parse_adif h ok hyp
 
+/-! how far the ADIF layout of Spec/Info/Aac.lean is cross-checked: `Pce.bits` against the program_config_element of
+harness/gen/headers_more.py (`_pce_bits`, written independently from the standard; used there for ADTS and MP4): 224
+layouts × start offsets × frequency / object type in harness/info_tie_a.py (`extra_builder_checks`), all EQUAL — fixed
+fields, the front / side / back element lists, LFE tags, byte alignment at every offset, the comment length byte.  Not
+exercised there: the mixdown fields, associated-data and coupling elements, comment bytes.  headers_more has no ADIF
+file builder: the adif_header itself (copyright id, bitstream type, bit rate, count, and the buffer fullness in front of
+EVERY program config element, on which `adif_cbr_second_pce_misread` rests) is NOT cross-checked.  The Lean builder's
+files are tied to mutagen through the lattice `adif-*` (model = real code on every built file). -/
+
 /-- a program config element read through the bit reader, for all values (any position, anything behind it) -/
 theorem aac_pce_decodes (f : Bytes) (r : R) (p : Pce) (ok : p.OK) (rest : List Bool) (h : At f r (p.bits r.pos ++ rest)) :
     parsePce f r = some (p.sfIndex, p.channels, ⟨r.start, r.pos + (p.bits r.pos).length⟩) :=
